@@ -1,6 +1,7 @@
 package props
 
 import (
+	"context"
 	"errors"
 	"fmt"
 	"os"
@@ -16,6 +17,7 @@ import (
 	"github.com/form3tech-oss/f1/v2/pkg/f1"
 	f1testing "github.com/form3tech-oss/f1/v2/pkg/f1/testing"
 	"github.com/form3tech-oss/f1/v2/verifharness/core"
+	"github.com/form3tech-oss/f1/v2/verifharness/engine"
 )
 
 // C08 — pass/fail verdict and exit status follow the documented failure tolerances.
@@ -39,6 +41,98 @@ type c08CLIParams struct {
 	Ignore  bool   `json:"ignore"`
 	Conc    int    `json:"conc"`
 	ViaFile bool   `json:"via_file"`
+	Profile string `json:"profile"` // "" | cpuprofile | memprofile
+}
+
+type c08RunVerdictParams struct {
+	Mode   string `json:"mode"`
+	Ending string `json:"ending"`
+	Fail   int    `json:"fail"` // iterations 1..Fail fail (and finish at once)
+	Hang   bool   `json:"hang"` // the next iteration never finishes: the run ends through the completion timeout
+	MaxF   int    `json:"max_f"`
+	MaxR   int    `json:"max_r"`
+	Ignore bool   `json:"ignore"`
+	Conc   int    `json:"conc"`
+}
+
+// c08RunVerdict: the verdict of a real run - also one that ends through the completion timeout with an
+// iteration still hanging - must follow the tolerances applied to the iterations that did complete.
+func c08RunVerdict(c *core.Case, o *core.Outcome) {
+	var p c08RunVerdictParams
+	c.Params(&p)
+	l := engine.NewLog()
+	ctx, cancel := context.WithCancel(context.Background())
+	defer cancel()
+	gate := make(chan struct{})
+	defer close(gate)
+	var started, failedDone, passedDone atomic.Int64
+	total := p.Fail + 3
+	scenario := func(t *f1testing.T) f1testing.RunFn {
+		return func(t *f1testing.T) {
+			n := int(started.Add(1))
+			switch {
+			case n <= p.Fail:
+				t.Fail()
+				failedDone.Add(1)
+			case n == p.Fail+1 && p.Hang:
+				<-gate
+			case n <= total:
+				passedDone.Add(1)
+			default:
+				// keep later iterations out of the picture: they wait until the run is over
+				<-gate
+			}
+		}
+	}
+	var spec engine.Spec
+	switch p.Mode {
+	case "users":
+		spec = engine.Spec{Mode: "users", Concurrency: p.Conc, MaxDurationMS: 60000}
+	case "constant":
+		spec = engine.RateSpec("constant", 2, 10, p.Conc)
+	default:
+		spec = engine.RateSpec("custom", 2, 10, p.Conc)
+	}
+	spec.CompletionMS = 250
+	spec.MaxFailures, spec.MaxFailuresRate, spec.IgnoreDropped = uint64(p.MaxF), p.MaxR, true
+	switch p.Ending {
+	case "duration":
+		spec.MaxDurationMS = 300
+	case "limit":
+		spec.MaxIterations = uint64(total)
+		spec.MaxDurationMS = 2000
+	case "cancel":
+		go func() { time.Sleep(300 * time.Millisecond); cancel() }()
+	}
+	r := engine.Execute(ctx, spec, l, scenario, nil, nil)
+	if r.NewErr != nil {
+		o.Inconc("harness: %v", r.NewErr)
+		return
+	}
+	desc := fmt.Sprintf("%+v", p)
+	if int(failedDone.Load()) != p.Fail {
+		o.Inconc("only %d of %d failing iterations ran (%s)", failedDone.Load(), p.Fail, desc)
+		return
+	}
+	F, P := uint64(failedDone.Load()), uint64(passedDone.Load())
+	su, fa, dr := resultCounts(r)
+	o.Events = started.Load() + int64(l.Len())
+	o.AddObs("evaluations", 1)
+	// every failing iteration finished long before the run ended: the result must know them
+	if fa != F {
+		o.Violate("runverdict-counts:"+desc, "%d iterations failed and finished long before the run ended, the final result reports %d failed (%d successful, %d dropped) (%s)", F, fa, su, dr, desc)
+		return
+	}
+	// the other counts may include iterations released at the very end; the verdict is judged on the result's own counts
+	want := c08Reference(su, fa, dr, uint64(p.MaxF), p.MaxR, true, 0)
+	if r.Result.Failed() != want {
+		o.Violate("runverdict:"+desc, "Failed()=%v for a run with %d successful / %d failed / %d dropped, tolerances give %v (%s)", r.Result.Failed(), su, fa, dr, want, desc)
+		return
+	}
+	_ = P
+	o.AddObs("decided_by_tolerance", 1)
+	o.Sig("runverdict:mode=%s:end=%s:hang=%v:fail>0=%v:maxF=%d:maxR=%d", p.Mode, p.Ending, p.Hang, p.Fail > 0, p.MaxF, p.MaxR)
+	o.Sample = map[string]any{"case": desc, "result": []uint64{su, fa, dr}, "failed_verdict": r.Result.Failed()}
 }
 
 // c08Reference is written from the property text, not from the code.
@@ -148,14 +242,30 @@ func init() {
 					}
 					p.Ignore = r.IntN(2) == 0
 				}
+				if k%3 == 1 {
+					p.Profile = pick(r, "cpuprofile", "memprofile")
+				}
 				c := core.MkCase("C08", "cli", k, seed, p)
 				c.Solo = true
+				c.TimeoutMS = 60000
+				cs = append(cs, c)
+			}
+			nrv := 10
+			if tier == "thorough" {
+				nrv = 80
+			}
+			for k := 0; k < nrv; k++ {
+				p := c08RunVerdictParams{Mode: pick(r, "users", "constant", "custom"), Ending: pick(r, "duration", "limit", "cancel"), Fail: r.IntN(4), Hang: k%2 == 0,
+					MaxF: pick(r, 0, 0, 1, 2), MaxR: pick(r, 0, 0, 30, 60), Ignore: r.IntN(2) == 0, Conc: pick(r, 2, 4)}
+				c := core.MkCase("C08", "runverdict", k, seed, p)
+				c.Race = k%2 == 0
 				c.TimeoutMS = 60000
 				cs = append(cs, c)
 			}
 			return cs
 		},
 		Kinds: map[string]core.RunFunc{
+			"runverdict": c08RunVerdict,
 			"grid":   c08Grid,
 			"seeded": c08Seeded,
 			"cli":    c08CLI,
@@ -360,6 +470,11 @@ func c08CLI(c *core.Case, o *core.Outcome) {
 		if p.Ignore {
 			args = append(args, "--ignore-dropped")
 		}
+	}
+	if p.Profile != "" {
+		pf := filepath.Join(os.Getenv("TMPDIR"), fmt.Sprintf("c08-%d.prof", os.Getpid()))
+		defer os.Remove(pf)
+		args = append([]string{"--" + p.Profile, pf}, args...)
 	}
 	err := f1.New().Add("sc", scenario).ExecuteWithArgs(args)
 	o.Events += started.Load() + 1
